@@ -5,9 +5,12 @@
 # Writes /verif/seeded/<ID><a|b>/{patch.diff,demo files,meta.json,verify.log}.
 set -u
 id=$1; v=$2; shift 2
-src=/tmp/seed/$id.out/$v
-dst=/verif/seeded/$id$v
-wt=/tmp/seedv-$id$v
+# SEEDROUND=r2 reads /tmp/seed/<ID>r2.out/<a|b> and stores the result as <ID>c / <ID>d
+dv=$v
+if [ "${SEEDROUND:-}" = r2 ]; then case $v in a) dv=c;; b) dv=d;; esac; fi
+src=/tmp/seed/$id${SEEDROUND:-}.out/$v
+dst=/verif/seeded/$id$dv
+wt=/tmp/seedv-$id$dv
 unset GOTOOLCHAIN GOSUMDB; export GOFLAGS=-mod=mod GOPROXY=off
 [ -f "$src/patch.diff" ] || { echo "no patch at $src"; exit 2; }
 mkdir -p "$dst"; log="$dst/verify.log"; : > "$log"
@@ -32,8 +35,8 @@ done
 echo "demo command: $democmd" >> "$log"
 echo "== demo WITHOUT the change" >> "$log"
 ( eval "$democmd" ) >> "$log" 2>&1; rc_without=$?
-git apply "$src/patch.diff" 2>>"$log" || { echo "RESULT $id$v: patch does not apply" | tee -a "$log"; exit 1; }
-go build ./... >> "$log" 2>&1 || { echo "RESULT $id$v: does not build" | tee -a "$log"; exit 1; }
+git apply "$src/patch.diff" 2>>"$log" || { echo "RESULT $id$dv: patch does not apply" | tee -a "$log"; exit 1; }
+go build ./... >> "$log" 2>&1 || { echo "RESULT $id$dv: does not build" | tee -a "$log"; exit 1; }
 echo "== demo WITH the change" >> "$log"
 ( eval "$democmd" ) >> "$log" 2>&1; rc_with=$?
 echo "== existing suite WITH the change (demo files removed)" >> "$log"
@@ -58,4 +61,4 @@ m.update({"property":id,"variant":v,"demo_cmd":cmd,
  "ran":["git apply patch.diff in a scratch worktree of /repo HEAD","go build ./...","demo command with and without the change","go test -count=1 ./... with the change","tools/mutant.sh patch.diff "+id]})
 json.dump(m,open(p,'w'),indent=1)
 PY
-echo "RESULT $id$v: demo without=$rc_without with=$rc_with suite=$suite | $caught" | tee -a "$log"
+echo "RESULT $id$dv: demo without=$rc_without with=$rc_with suite=$suite | $caught" | tee -a "$log"
